@@ -67,7 +67,37 @@ func pagingHandlers(c *an.Ctx) []pagingHandler {
 			continue
 		}
 		for _, call := range an.CallsIn(fn, func(n string) bool { return strings.HasSuffix(n, ".capPageSize") }) {
-			out = append(out, pagingHandler{fn, call.(*ssa.Call)})
+			// the handler is the function the rules know; when the call sits in a helper they have never seen
+			// (request validation split off), the handlers are that helper's callers
+			handlers := []*ssa.Function{fn}
+			for depth := 0; depth < 3; depth++ {
+				var next []*ssa.Function
+				moved := false
+				for _, h := range handlers {
+					if an.KnownFunc(an.FuncQName(h)) {
+						next = append(next, h)
+						continue
+					}
+					for _, caller := range c.Prog.FuncsIn("pkg/trait") {
+						if caller.Parent() != nil || caller.Package() != h.Package() {
+							continue
+						}
+						an.Instrs(caller, func(in ssa.Instruction) {
+							if cl, ok := in.(*ssa.Call); ok && an.TransparentCallee(cl) == h {
+								next = append(next, caller)
+								moved = true
+							}
+						})
+					}
+				}
+				handlers = next
+				if !moved {
+					break
+				}
+			}
+			for _, h := range handlers {
+				out = append(out, pagingHandler{h, call.(*ssa.Call)})
+			}
 		}
 	}
 	return out
@@ -137,31 +167,47 @@ func r15handler(c *an.Ctx, h pagingHandler) {
 	// ---- R15.1
 	c.Check(fromRequestField(h.cap.Call.Args[0], "PageSize"), "R15.1", name+"|page size comes from the request", h.cap.Pos(), "", "capPageSize is not applied to the request's page_size")
 	lo := capLowerBound(c, h.cap.Call.StaticCallee())
-	c.Check(lo >= 1 || negativeRejected(c, fn, h.cap), "R15.1", name+"|negative page sizes are rejected before use", h.cap.Pos(), fmt.Sprintf("lower bound of capPageSize: %d", lo),
+	c.Check(lo >= 1 || negativeRejected(c, h.cap.Parent(), h.cap), "R15.1", name+"|negative page sizes are rejected before use", h.cap.Pos(), fmt.Sprintf("lower bound of capPageSize: %d", lo),
 		"a negative page_size passes through capPageSize unchanged and is used as the page length: `listing[upperBound-1]` is indexed with a negative number (panic) instead of the request being answered with an error status")
 	// ---- R15.2
-	var dec *ssa.Call
-	for _, call := range an.CallsIn(fn, func(n string) bool { return strings.HasSuffix(n, ".decodePageToken") }) {
-		dec = call.(*ssa.Call)
+	var dec *ssa.Call     // the decodePageToken call (possibly inside a helper the rules have not seen)
+	var decSite *ssa.Call // the call in the handler that stands for it
+	var decFn *ssa.Function
+	for _, vc := range an.CallsToDeepMatch(fn, func(n string) bool { return strings.HasSuffix(n, ".decodePageToken") }) {
+		if !vc.Must {
+			continue
+		}
+		dec, decSite, decFn = vc.Inner.(*ssa.Call), vc.Site.(*ssa.Call), fn
+		if vc.Via != nil {
+			decFn = vc.Via
+		}
 	}
 	if dec == nil {
 		c.Bad("R15.2", name+"|token decoded first, failure returned", fn.Pos(), "the handler does not decode the page token")
 	} else {
 		okTok := fromRequestField(dec.Call.Args[0], "PageToken")
-		okRet := false
-		for _, r := range an.Returns(fn) {
-			for _, v := range an.ValuesAt(r.Results[len(r.Results)-1]) {
-				if v == ssa.Value(dec) {
-					okRet = true
+		// the decoding error is handed back: by the function that decodes, and (when that is a helper) by the handler
+		returnsErrOf := func(f *ssa.Function, call *ssa.Call) bool {
+			for _, r := range an.Returns(f) {
+				for _, v := range an.ValuesAt(r.Results[len(r.Results)-1]) {
+					if v == ssa.Value(call) || an.IsExtractOf(v, call, call.Call.Signature().Results().Len()-1) {
+						return true
+					}
 				}
 			}
+			return false
 		}
+		okRet := returnsErrOf(decFn, dec) && (decSite == dec || returnsErrOf(fn, decSite))
 		// nothing else (model access) before the decode result is checked
 		early := false
 		an.Instrs(fn, func(in ssa.Instruction) {
-			if call, ok := in.(*ssa.Call); ok && call != dec {
+			if call, ok := in.(*ssa.Call); ok && call != decSite {
 				if f := call.Call.StaticCallee(); f != nil && f.Signature.Recv() != nil && strings.Contains(an.NamedTypeName(f.Signature.Recv().Type()), ".Model") {
-					if !guardedByNilValue(call, dec) {
+					guarded := guardedByNilValue(call, decSite)
+					if decSite != dec {
+						guarded = an.GuardedByNilResult(call, decSite, decSite.Call.Signature().Results().Len()-1)
+					}
+					if !guarded {
 						early = true
 					}
 				}
@@ -213,7 +259,44 @@ func r15handler(c *an.Ctx, h pagingHandler) {
 			}
 		}
 	}
-	okSum := sum != nil && ((sum.X == page.Low && an.ValuesAt(sum.Y)[0] == ssa.Value(h.cap)) || (sum.Y == page.Low && an.ValuesAt(sum.X)[0] == ssa.Value(h.cap)))
+	sameSet := func(x, y ssa.Value) bool {
+		if x == y {
+			return true
+		}
+		xs, ys := map[ssa.Value]bool{}, map[ssa.Value]bool{}
+		for _, v := range an.ValuesAt(x) {
+			xs[stripIntConv(v)] = true
+		}
+		for _, v := range an.ValuesAt(y) {
+			ys[stripIntConv(v)] = true
+		}
+		if len(xs) == 0 || len(xs) != len(ys) {
+			return false
+		}
+		for v := range xs {
+			if !ys[v] {
+				// constants are equal by value
+				kx, isC := an.ConstInt(v)
+				found := false
+				if isC {
+					for w := range ys {
+						if ky, isC2 := an.ConstInt(w); isC2 && ky == kx {
+							found = true
+						}
+					}
+				}
+				if !found {
+					return false
+				}
+			}
+		}
+		return true
+	}
+	isCap := func(v ssa.Value) bool {
+		vs := an.ValuesAt(v)
+		return len(vs) == 1 && vs[0] == ssa.Value(h.cap)
+	}
+	okSum := sum != nil && ((sameSet(sum.X, page.Low) && isCap(sum.Y)) || (sameSet(sum.Y, page.Low) && isCap(sum.X)))
 	c.Check(okHigh && okSum, "R15.6", name+"|page is listing[next : min(next+size, len)]", page.Pos(), "", "the page's upper bound is not min(next + capped page size, len(listing)) with the page starting at `next`: pages can exceed the requested size or skip items")
 	// Low = phi(0, search result [+ equality skip])
 	var search *ssa.Call
@@ -316,7 +399,8 @@ func r15handler(c *an.Ctx, h pagingHandler) {
 			if ia == nil || !sameListing(ia.X) {
 				return
 			}
-			if bo, isBO := ia.Index.(*ssa.BinOp); isBO && bo.Op == token.SUB && bo.X == ssa.Value(sum) {
+			// listing[end-1] with end = next+size, or the page's own upper bound (they coincide when the page is full)
+			if bo, isBO := ia.Index.(*ssa.BinOp); isBO && bo.Op == token.SUB && (bo.X == ssa.Value(sum) || bo.X == page.High) {
 				if one, isC := an.ConstInt(bo.Y); isC && one == 1 {
 					okTokVal = true
 				}
